@@ -4,6 +4,11 @@
 # optional 4th..6th fields  :modfile:anchor-line:modname  add `#[cfg(test)] mod modname;` after the anchor line of modfile
 export CARGO_TARGET_DIR=/tmp/vs2-target-$$
 S=/verif/seeded
+run_demo() {
+  out=$(cargo nextest run -p $CRATE --offline --no-fail-fast -E "test($T)" 2>&1)
+  if echo "$out" | grep -q "no tests to run"; then out=$(cargo nextest run -p $CRATE --offline --no-fail-fast -E "binary($T)" 2>&1); fi
+  echo "$out" | grep -E "Summary|error(\[|:)" | head -3
+}
 for spec in "$@"; do
   IFS=: read -r ID CRATE DEST MODFILE ANCHOR MODNAME <<< "$spec"
   WT=/tmp/vs2-$ID
@@ -22,9 +27,9 @@ s = s.replace(anchor + "\n", anchor + "\n#[cfg(test)]\nmod " + name + ";\n", 1)
 open(f, "w").write(s)
 PY
   fi
-  echo "== $ID: demo on the unmodified tree"; cargo nextest run -p $CRATE --offline --no-fail-fast -E "test($T) | binary($T)" 2>&1 | grep -E "Summary|error(\[|:)" | head -3
+  echo "== $ID: demo on the unmodified tree"; run_demo
   git apply $S/$ID/patch.diff || echo "PATCH DOES NOT APPLY"
-  echo "== $ID: demo with the change"; cargo nextest run -p $CRATE --offline --no-fail-fast -E "test($T) | binary($T)" 2>&1 | grep -E "Summary|error(\[|:)" | head -3
+  echo "== $ID: demo with the change"; run_demo
   rm $DEST
   if [ -n "$MODFILE" ]; then python3 - "$MODFILE" "$MODNAME" <<'PY'
 import sys
